@@ -137,6 +137,10 @@ pub struct ReqPlan {
     pub headers: Vec<(String, Vec<u8>, bool)>,
     pub auth: Auth,
     pub body: BodySpec,
+    /// which of the equivalent public entry points builds the request: 0 RequestBuilder::new, 1 try_new,
+    /// 2 the free function named after the method, 3 the same method of a fresh Session; odd values
+    /// also use the try_ / serde variants of the header and query setters
+    pub api: u8,
 }
 
 const WORDS: &[&str] = &["", "a", "b c", "é", "日本", "a&b=c", "100%", "x+y", "#h", "?q", "/s/", "🦀", "a=b", "%41", "=", "&&", " ", "\"q\"", "<tag>"];
@@ -346,7 +350,7 @@ pub fn gen_request(g: &mut G, max_body: usize) -> ReqPlan {
         1 => Auth::Bearer((*g.pick(&["tok", "abc.def.ghi", "t o k", "tökén", ""])).to_string()),
         _ => Auth::None,
     };
-    ReqPlan { method, path, url_query, params, params_batch: g.chance(1, 2), headers, auth, body: gen_body(g, max_body) }
+    ReqPlan { method, path, url_query, params, params_batch: g.chance(1, 2), headers, auth, body: gen_body(g, max_body), api: g.below(4) as u8 }
 }
 
 impl ReqPlan {
@@ -364,10 +368,51 @@ impl ReqPlan {
         self.body.name()
     }
 
+    /// A builder for this plan's method and `url`, made through one of the equivalent entry points.
+    pub fn new_builder(&self, url: &str) -> attohttpc::RequestBuilder {
+        let m = attohttpc::Method::from_bytes(self.method.as_bytes()).unwrap();
+        match self.api {
+            1 => attohttpc::RequestBuilder::try_new(m, url).expect("generated url"),
+            2 => match self.method.as_str() {
+                "GET" => attohttpc::get(url),
+                "POST" => attohttpc::post(url),
+                "PUT" => attohttpc::put(url),
+                "DELETE" => attohttpc::delete(url),
+                "HEAD" => attohttpc::head(url),
+                "OPTIONS" => attohttpc::options(url),
+                "PATCH" => attohttpc::patch(url),
+                "TRACE" => attohttpc::trace(url),
+                _ => attohttpc::RequestBuilder::new(m, url),
+            },
+            3 => {
+                let s = attohttpc::Session::new();
+                match self.method.as_str() {
+                    "GET" => s.get(url),
+                    "POST" => s.post(url),
+                    "PUT" => s.put(url),
+                    "DELETE" => s.delete(url),
+                    "HEAD" => s.head(url),
+                    "OPTIONS" => s.options(url),
+                    "PATCH" => s.patch(url),
+                    "TRACE" => s.trace(url),
+                    _ => attohttpc::RequestBuilder::new(m, url),
+                }
+            }
+            _ => attohttpc::RequestBuilder::new(m, url),
+        }
+    }
+
     /// Build the request through the public API and hand the typed builder to `f`.
     pub fn build(&self, rb: attohttpc::RequestBuilder) -> attohttpc::RequestBuilder {
         let mut rb = rb;
-        if self.params_batch {
+        let alt = self.api % 2 == 1;
+        // (serialising an empty list leaves a bare `?` on the URL: same pairs, another target string;
+        // not worth an opinion)
+        if self.params_batch && alt && !self.params.is_empty() {
+            // the serde route to the same pairs
+            let pairs: Vec<(String, String)> = self.params.clone();
+            rb = rb.query(&pairs).expect("query pairs serialise");
+        } else if self.params_batch {
             rb = rb.params(self.params.iter().map(|(k, v)| (k.as_str(), v.as_str())).collect::<Vec<_>>());
         } else {
             for (k, v) in &self.params {
@@ -376,7 +421,12 @@ impl ReqPlan {
         }
         for (n, v, append) in &self.headers {
             let name = attohttpc::header::HeaderName::from_bytes(n.as_bytes()).expect("generated header name");
-            rb = if *append { rb.header_append(name, &v[..]) } else { rb.header(name, &v[..]) };
+            rb = match (*append, alt) {
+                (true, false) => rb.header_append(name, &v[..]),
+                (false, false) => rb.header(name, &v[..]),
+                (true, true) => rb.try_header_append(name, &v[..]).expect("generated header value"),
+                (false, true) => rb.try_header(name, &v[..]).expect("generated header value"),
+            };
         }
         match &self.auth {
             Auth::None => {}
